@@ -10,6 +10,7 @@ import (
 	cfg "github.com/lianxiangcloud/linkchain/config"
 	"github.com/lianxiangcloud/linkchain/libs/common"
 	lktypes "github.com/lianxiangcloud/linkchain/libs/cryptonote/types"
+	dbm "github.com/lianxiangcloud/linkchain/libs/db"
 	"github.com/lianxiangcloud/linkchain/types"
 )
 
@@ -30,6 +31,8 @@ type ChainExec struct {
 	// Extra stacks built with the same genesis (replicas), in the order of ReplicaOpts
 	ReplicaOpts []Opts
 	Replicas    []*Stack
+	// Wrap, if set, decorates the databases of the main stack (crash injection)
+	Wrap func(name string, db dbm.DB) dbm.DB
 }
 
 // ContractAddr is the address of the test contract present at genesis when `chain ... code=1`.
@@ -137,7 +140,7 @@ func (c *ChainExec) Exec(op string) string {
 		for _, r := range c.Replicas {
 			r.Close()
 		}
-		*c = ChainExec{AfterCommit: c.AfterCommit, ReplicaOpts: c.ReplicaOpts}
+		*c = ChainExec{AfterCommit: c.AfterCommit, ReplicaOpts: c.ReplicaOpts, Wrap: c.Wrap}
 		return "ok"
 	case "chain":
 		SeedCrypto(uint64(argI(toks, "seed", 1)))
@@ -156,6 +159,7 @@ func (c *ChainExec) Exec(op string) string {
 		if argI(toks, "code", 0) == 1 {
 			o.Code = map[common.Address][]byte{ContractAddr: TestContract}
 		}
+		o.Wrap = c.Wrap
 		s, err := NewStack(o)
 		if err != nil {
 			return "err " + err.Error()
